@@ -208,6 +208,9 @@ CODEC_TIE_MOD = "AioMySensors.Lemmas.CodecBodiesEq"
 # C18: the generated topic <-> line mapping must equal Mqtt.toTopic / Mqtt.toLine
 MQTT_TIE_PROPS = {"C18"}
 MQTT_TIE_MOD = "AioMySensors.Lemmas.MqttBodiesEq"
+# C13, C14, C15: the generated Persistence.load / save must equal Persist.loadFile / FileOps.saveOps
+PERSIST_TIE_PROPS = {"C13", "C14", "C15"}
+PERSIST_TIE_MOD = "AioMySensors.Lemmas.PersistBodiesEq"
 
 
 def translate_bodies(force_snapshot: bool) -> str:
@@ -216,6 +219,7 @@ def translate_bodies(force_snapshot: bool) -> str:
            "--stream-out", os.path.join(LEAN, "AioMySensors", "Generated", "StreamBodies.lean"),
            "--codec-out", os.path.join(LEAN, "AioMySensors", "Generated", "CodecBodies.lean"),
            "--mqtt-out", os.path.join(LEAN, "AioMySensors", "Generated", "MqttBodies.lean"),
+           "--persist-out", os.path.join(LEAN, "AioMySensors", "Generated", "PersistBodies.lean"),
            "--snapshot", os.path.join(VERIF, "tools", "bodies_snapshot.json"),
            "--json", os.path.join(VERIF, "tools", "bodies_status.json")]
     if force_snapshot:
@@ -336,22 +340,25 @@ def run(prop: str, tier: str, replay: str | None) -> int:
         stream_tie = prop in STREAM_TIE_PROPS
         codec_tie = prop in CODEC_TIE_PROPS
         mqtt_tie = prop in MQTT_TIE_PROPS
-        if tie or stream_tie or codec_tie or mqtt_tie:
+        persist_tie = prop in PERSIST_TIE_PROPS
+        if tie or stream_tie or codec_tie or mqtt_tie or persist_tie:
             report["translation"] = translate_bodies(force_snapshot=False)
         # 2. build: the models (driver) first, then the property's theorems
         rc_m, out_m = sh(["lake", "build", "AioMySensors.Model"], cwd=LEAN)
         model_ok = rc_m == 0
         rc_p, out_p = sh(["lake", "build", prop_mod], cwd=LEAN)
         proofs_ok = rc_p == 0
-        if tie or stream_tie or codec_tie or mqtt_tie:
+        if tie or stream_tie or codec_tie or mqtt_tie or persist_tie:
             rc_b, out_b = sh(["lake", "build", "AioMySensors.Generated.Bodies", "AioMySensors.Generated.StreamBodies",
-                              "AioMySensors.Generated.CodecBodies", "AioMySensors.Generated.MqttBodies"], cwd=LEAN)
+                              "AioMySensors.Generated.CodecBodies", "AioMySensors.Generated.MqttBodies",
+                              "AioMySensors.Generated.PersistBodies"], cwd=LEAN)
             if rc_b != 0:
                 # the translation does not type-check: that is a limit of the translator, not a fact about the code;
                 # fall back to the committed translation and leave the tie to the correspondence run
                 report["translation"] = translate_bodies(force_snapshot=True) + " (fresh translation did not type-check: " \
                     + " ".join(out_b.split())[-300:] + ")"
-            for on, tmod in ((tie, TIE_MOD), (stream_tie, STREAM_TIE_MOD), (codec_tie, CODEC_TIE_MOD), (mqtt_tie, MQTT_TIE_MOD)):
+            for on, tmod in ((tie, TIE_MOD), (stream_tie, STREAM_TIE_MOD), (codec_tie, CODEC_TIE_MOD), (mqtt_tie, MQTT_TIE_MOD),
+                             (persist_tie, PERSIST_TIE_MOD)):
                 if not on:
                     continue
                 rc_t, out_t = sh(["lake", "build", tmod], cwd=LEAN)
@@ -372,6 +379,8 @@ def run(prop: str, tier: str, replay: str | None) -> int:
         mods.append(CODEC_TIE_MOD)
     if mqtt_tie and MQTT_TIE_MOD not in mods:
         mods.append(MQTT_TIE_MOD)
+    if persist_tie and PERSIST_TIE_MOD not in mods:
+        mods.append(PERSIST_TIE_MOD)
     theorems = {}
     for m in mods:
         for name, a, b in theorem_spans(module_path(m)):
@@ -514,6 +523,8 @@ def run(prop: str, tier: str, replay: str | None) -> int:
         "extraction": report["extraction"],
         "body_translation": report.get("translation", "not used by this property"),
         "tie_search": report.get("tie_search", "not needed (every equality of BodiesEq checks)" if tie else "n/a"),
+        "persist_tie": ("PersistBodiesEq: the generated Persistence.load equals Persist.loadFile, the generated file operations of save equal "
+                        "FileOps.saveOps" if persist_tie else "n/a"),
         "mqtt_tie": ("MqttBodiesEq: the generated _parse_message_to_mqtt / _parse_mqtt_to_message equal Mqtt.toTopic / Mqtt.toLine"
                      if mqtt_tie else "n/a"),
         "codec_tie": ("CodecBodiesEq.loadGen_eq: MessageSchema.load assembled from the generated validators = decode, "
